@@ -3,7 +3,9 @@
    `forall d, b58 (b58enc d) = Some d` discharged from C11's theorem.  Only statements; every proof is
    `exact <lemma of Proofs/ComposeCodecC18.v / ComposeCodecB58.v>`.
 
-   C18's `text` = list of code points = C11's `pystr`: no conversion.
+   C18's `text` = list of code points = C11's `pystr`: no conversion.  C18's decoder parameter is the UNCACHED decoder,
+   outcome-valued (parseable_str.cache is modelled in Model/ParseText.v): c11_dec H s := Ret (c11_a2b_hashed H s)
+   (Proofs/ComposeCodecC18.v; C11's model of the decoder never raises).
      c11_a2b_hashed H t = parse_b58_hashed(t) = parseable_str.parse_b58_double_sha256 (C11's btc_parse_b58_double_sha256 H)
      c11_b2a_hashed H d = b2a_hashed_base58(d)                                        (C11's btc_b2a_hashed_base58 H)
    H is an arbitrary function; the only fact used is that it returns 32 bytes; C18c_reserialize_same_text needs nothing.
@@ -25,14 +27,14 @@ Print Assumptions C18c_codec_hypothesis.
 (* C18_reserialize_text with no codec hypothesis *)
 Theorem C18c_reserialize_text : forall (H : bytes -> bytes), (forall x, length (H x) = 32%nat) ->
   forall mulG modsqrt net (s : text) o,
-  (p2pkh (c11_a2b_hashed H) net s = Ret (Some o) ->
-     exists d, p2pkh_payload net o = Some d /\ p2pkh (c11_a2b_hashed H) net (c11_b2a_hashed H d) = Ret (Some o)) /\
-  (p2sh (c11_a2b_hashed H) net s = Ret (Some o) ->
-     exists d, p2sh_payload net o = Some d /\ p2sh (c11_a2b_hashed H) net (c11_b2a_hashed H d) = Ret (Some o)) /\
-  (wif (c11_a2b_hashed H) mulG net s = Ret (Some o) ->
-     exists d, wif_payload net o = Some d /\ wif (c11_a2b_hashed H) mulG net (c11_b2a_hashed H d) = Ret (Some o)) /\
-  (forall kind, hd_prefixes_ok net kind -> hd_any (c11_a2b_hashed H) mulG modsqrt net kind s = Ret (Some o) ->
-     exists d, hd_payload net o = Some d /\ hd_any (c11_a2b_hashed H) mulG modsqrt net kind (c11_b2a_hashed H d) = Ret (Some o)).
+  (p2pkh (c11_dec H) net s = Ret (Some o) ->
+     exists d, p2pkh_payload net o = Some d /\ p2pkh (c11_dec H) net (c11_b2a_hashed H d) = Ret (Some o)) /\
+  (p2sh (c11_dec H) net s = Ret (Some o) ->
+     exists d, p2sh_payload net o = Some d /\ p2sh (c11_dec H) net (c11_b2a_hashed H d) = Ret (Some o)) /\
+  (wif (c11_dec H) mulG net s = Ret (Some o) ->
+     exists d, wif_payload net o = Some d /\ wif (c11_dec H) mulG net (c11_b2a_hashed H d) = Ret (Some o)) /\
+  (forall kind, hd_prefixes_ok net kind -> hd_any (c11_dec H) mulG modsqrt net kind s = Ret (Some o) ->
+     exists d, hd_payload net o = Some d /\ hd_any (c11_dec H) mulG modsqrt net kind (c11_b2a_hashed H d) = Ret (Some o)).
 Proof. exact compose_text_reserialize. Qed.
 Print Assumptions C18c_reserialize_text.
 
@@ -40,9 +42,9 @@ Print Assumptions C18c_reserialize_text.
    parsed — Base58Check accepts only the canonical spelling.  (Extended keys are excluded on purpose: the serialiser
    chooses the prefix by the node's privacy, see C18_reserialize_hd_payload and the open bip32_pub finding.) *)
 Theorem C18c_reserialize_same_text : forall (H : bytes -> bytes) mulG net (s : text) o,
-  (p2pkh (c11_a2b_hashed H) net s = Ret (Some o) -> exists d, p2pkh_payload net o = Some d /\ c11_b2a_hashed H d = s) /\
-  (p2sh (c11_a2b_hashed H) net s = Ret (Some o) -> exists d, p2sh_payload net o = Some d /\ c11_b2a_hashed H d = s) /\
-  (wif (c11_a2b_hashed H) mulG net s = Ret (Some o) -> exists d, wif_payload net o = Some d /\ c11_b2a_hashed H d = s).
+  (p2pkh (c11_dec H) net s = Ret (Some o) -> exists d, p2pkh_payload net o = Some d /\ c11_b2a_hashed H d = s) /\
+  (p2sh (c11_dec H) net s = Ret (Some o) -> exists d, p2sh_payload net o = Some d /\ c11_b2a_hashed H d = s) /\
+  (wif (c11_dec H) mulG net s = Ret (Some o) -> exists d, wif_payload net o = Some d /\ c11_b2a_hashed H d = s).
 Proof. exact compose_reserialize_same_text. Qed.
 Print Assumptions C18c_reserialize_same_text.
 
@@ -51,5 +53,5 @@ Print Assumptions C18c_reserialize_same_text.
 Example C18c_example :
   let H := fun _ : bytes => repeatb x00 32 in
   (forall x, length (H x) = 32%nat) /\
-  exists o, p2pkh (c11_a2b_hashed H) btc_cfg (c11_b2a_hashed H (x00 :: repeatb x11 20)) = Ret (Some o).
+  exists o, p2pkh (c11_dec H) btc_cfg (c11_b2a_hashed H (x00 :: repeatb x11 20)) = Ret (Some o).
 Proof. split; [reflexivity|]. eexists. vm_compute. reflexivity. Qed.
